@@ -388,6 +388,24 @@ class SimHandlerError(Exception):
     """The arbitrary (non-kopf) exception raised by scripted handlers."""
 
 
+class SimHandlerRuntimeError(SimHandlerError, RuntimeError):
+    pass
+
+
+class SimHandlerLookupError(SimHandlerError, LookupError):
+    pass
+
+
+class SimHandlerOSError(SimHandlerError, OSError):
+    pass
+
+
+def arbitrary_error(hid: str, n: int, msg: str) -> SimHandlerError:
+    """The kind of the arbitrary exception varies with the handler and the attempt (a pure function of both)."""
+    kinds = (SimHandlerError, SimHandlerRuntimeError, SimHandlerLookupError, SimHandlerOSError)
+    return kinds[core.stable_hash(hid, n) % len(kinds)](msg)
+
+
 def _script_step(script: list[dict[str, Any]], n: int) -> dict[str, Any]:
     if not script:
         return {'do': 'ok'}
@@ -692,7 +710,7 @@ def make_oneshot_fn(op: Operator, hs: dict[str, Any]) -> Any:
                     raise kopf.PermanentError(f"scripted permanent error #{c.n}")
                 elif do == 'exc':
                     outcome = 'exc'
-                    raise SimHandlerError(f"scripted arbitrary error #{c.n} ☃")
+                    raise arbitrary_error(hid, c.n, f"scripted arbitrary error #{c.n} ☃")
                 else:
                     raise ValueError(f"unknown scripted outcome {do!r}")
             except threads.SimThreadAbort:
@@ -733,7 +751,7 @@ def make_oneshot_fn(op: Operator, hs: dict[str, Any]) -> Any:
                 raise kopf.PermanentError(f"scripted permanent error #{c.n}")
             elif do == 'exc':
                 outcome = 'exc'
-                raise SimHandlerError(f"scripted arbitrary error #{c.n} ☃")
+                raise arbitrary_error(hid, c.n, f"scripted arbitrary error #{c.n} ☃")
             else:
                 raise ValueError(f"unknown scripted outcome {do!r}")
         except asyncio.CancelledError:
@@ -806,7 +824,7 @@ def make_daemon_fn(op: Operator, hs: dict[str, Any]) -> Any:
                 elif mode == 'raise':
                     threads.simsleep(behaviour.get('after', 1.0))
                     outcome = 'raised'
-                    raise SimHandlerError("scripted daemon failure")
+                    raise arbitrary_error(hid, c.n, "scripted daemon failure")
                 elif mode == 'temp':
                     import kopf
                     threads.simsleep(behaviour.get('after', 1.0))
@@ -881,7 +899,7 @@ def make_daemon_fn(op: Operator, hs: dict[str, Any]) -> Any:
             elif mode == 'raise':
                 await asyncio.sleep(behaviour.get('after', 1.0))
                 outcome = 'raised'
-                raise SimHandlerError("scripted daemon failure")
+                raise arbitrary_error(hid, c.n, "scripted daemon failure")
             elif mode == 'temp':
                 import kopf
                 await asyncio.sleep(behaviour.get('after', 1.0))
